@@ -31,8 +31,8 @@ ASSUMPTIONS = [
     "(only then do cuts given by Cartesian coordinate select, on the reduced image, the data that matrix indices select)",
 ]
 FLOORS = {
-    "quick": {"slice_by_name_after_move": 20, "slice_at_faces_and_off_centre": 200, "reduced_image_keeps_lower_corner": 60, "table_row": 48, "there_and_back": 12, "name_equals_index": 150, "layout_places_voxels": 80, "layout_inverse": 80},
-    "thorough": {"slice_by_name_after_move": 100, "slice_at_faces_and_off_centre": 1000, "reduced_image_keeps_lower_corner": 300, "table_row": 48, "there_and_back": 12, "name_equals_index": 700, "layout_places_voxels": 400, "layout_inverse": 400},
+    "quick": {"integer_typed_origin": 2, "slice_by_name_after_move": 20, "slice_at_faces_and_off_centre": 200, "reduced_image_keeps_lower_corner": 60, "table_row": 48, "there_and_back": 12, "name_equals_index": 150, "layout_places_voxels": 80, "layout_inverse": 80},
+    "thorough": {"integer_typed_origin": 10, "slice_by_name_after_move": 100, "slice_at_faces_and_off_centre": 1000, "reduced_image_keeps_lower_corner": 300, "table_row": 48, "there_and_back": 12, "name_equals_index": 700, "layout_places_voxels": 400, "layout_inverse": 400},
 }
 
 
@@ -126,6 +126,10 @@ def run_shard(spec, R):
             continue
         img, desc = make_image(rng, dim, shape=tuple(int(rng.integers(2, 6)) for _ in range(dim)), payload=payload,
                                origin_kind=["default", "user"][k % 2], dimensions=[float(rng.uniform(0.5, 3)) for _ in range(dim)])
+        if k % 4 == 3:
+            # the origin written as plain integers (metres), the dimensions are no integers
+            img.origin = darsia.Coordinate(np.array([int(v) for v in np.round(np.asarray(img.origin, float))]))
+            R.count("integer_typed_origin")
         cs = img.coordinatesystem
         shape = tuple(desc["shape"])
         for m in range(dim):
